@@ -237,7 +237,35 @@ func (f *family) gem() string {
 // ---- maven
 
 var mvnWords = []string{"alpha", "a", "beta", "b", "milestone", "m", "rc", "cr", "snapshot", "ga", "final", "release", "sp",
-	"xyz", "abc", "SNAPSHOT", "Alpha", "RC", "Final", "GA", "SP", "x", "jre", "RELEASE", "z"}
+	"xyz", "abc", "SNAPSHOT", "Alpha", "RC", "Final", "GA", "SP", "x", "jre", "RELEASE", "z",
+	// letters with a case mapping outside ASCII (ordString lower-cases with the Unicode tables)
+	"\u00c9clair", "\u00e9clair", "\u03a3\u0391", "\u03c3\u03b1", "\u01c5", "\u01c6", "\u0130", "Stra\u00dfe", "\u212a", "k"}
+
+// nonASCIISeqs: white space, letters, digits of other scripts; ill-formed,
+// truncated, overlong, surrogate and out-of-range byte sequences.
+var nonASCIISeqs = []string{"\u00a0", "\u0085", "\u1680", "\u2003", "\u2028", "\u202f", "\u3000", "\u200b", "\ufffd",
+	"\u00e9", "\u00c9", "\u00fc", "\u0663", "\uff11", "\u00b2", "\U0001d7d8", "\u0969",
+	"\xc2", "\x85", "\xa0", "\xe2\x80", "\xc0\xa0", "\xe0\x80\xa0", "\xff", "\xed\xa0\x80", "\xf4\x90\x80\x80", "\xe1\x9a"}
+
+// nonASCIIEdit inserts one or two such sequences (or replaces a digit by a
+// decimal digit of another script).
+func (f *family) nonASCIIEdit(s string) string {
+	for k := 1 + f.r.Intn(2); k > 0; k-- {
+		seq := nonASCIISeqs[f.r.Intn(len(nonASCIISeqs))]
+		i := f.r.Intn(len(s) + 1)
+		if f.r.Chance(1, 4) {
+			i = 0
+		} else if f.r.Chance(1, 4) {
+			i = len(s)
+		}
+		if f.r.Chance(1, 5) && i < len(s) && s[i] >= '0' && s[i] <= '9' {
+			s = s[:i] + string(rune(0x0660+int(s[i]-'0'))) + s[i+1:]
+			continue
+		}
+		s = s[:i] + seq + s[i:]
+	}
+	return s
+}
 
 func (f *family) mvnTok() string {
 	if f.r.Chance(1, 2) {
@@ -385,7 +413,9 @@ var aliasPairs = [][2]string{{"alpha", "a"}, {"beta", "b"}, {"milestone", "m"}, 
 
 func (f *family) mutate(s string, scheme string) string {
 	r := f.r
-	switch k := r.Intn(12); {
+	switch k := r.Intn(13); {
+	case k == 12:
+		return f.nonASCIIEdit(s)
 	case k < 3:
 		suffixes := []string{".0", "-0", ".0.0", "0", ".00"}
 		switch scheme {
